@@ -4,6 +4,8 @@ import YaqsModel.Model.Heff
 import YaqsModel.Model.LanczosH
 /-! line protocol for the Krylov exit logic and the exact recurrence:
     `lanczos <normZero> <mMax> <epsCut> <tol> | β_0 … | φ_1 …`  → `<kind> <k> <fresh> <nsolve>` | `err`
+    `lanczosw …` (same arguments as `lanczos`)                   → `<kind> <k> <fresh> <nsolve> w i_0 i_1 …`: the indices of `beta` the loop
+                                                                    wrote a non-zero value to, in order (what the array shows afterwards)
     `arnoldi <normZero> <mMax> <thr> <tol> | η_0 … | φ_1 …`     → `<kind> <k> <fresh> <nsolve>`
     `lanczosrat <n> <m> | A (row-major) | v`                     → `alpha_0 … alpha_{m-1} | betaSq_0 … betaSq_{m-2}`
     A request whose number lists are too short for the indices the model looks at is `bad-op`. -/
@@ -239,6 +241,18 @@ def handle (line : String) : String :=
         let (nb, np) := needed x.kind x.k mMax
         if b.length < nb ∨ p.length < np then "bad-op"
         else s!"{showKind x.kind} {x.k} {showBool x.fresh} {x.nsolve}"
+    | _, _, _, _, _, _ => "bad-op"
+  | [["lanczosw", z, m, e, t], bs, ps] =>
+    match parseFlag? z, m.toNat?, parseRat? e, parseRat? t, parseAll? parseRat? bs, parseAll? parseRat? ps with
+    | some z, some mMax, some eps, some tol, some b, some p =>
+      match lanczosExit z mMax eps tol (fun j => b.getD j 0) (fun j => p.getD (j - 1) 0) with
+      | none => "err"
+      | some x =>
+        let (nb, np) := needed x.kind x.k mMax
+        if b.length < nb ∨ p.length < np ∨ x.writes.any (fun j => b.length ≤ j) then "bad-op"
+        else
+          let ws := x.writes.filter fun j => b.getD j 0 != 0
+          joinWith " " ([showKind x.kind, toString x.k, showBool x.fresh, toString x.nsolve, "w"] ++ ws.map toString)
     | _, _, _, _, _, _ => "bad-op"
   | [["arnoldi", z, m, e, t], bs, ps] =>
     match parseFlag? z, m.toNat?, parseRat? e, parseRat? t, parseAll? parseRat? bs, parseAll? parseRat? ps with
